@@ -339,6 +339,41 @@ fn misc_part(rep: &mut Report, thorough: bool) {
             }
         }
     }
+    // Both entry points on one filter (they share its history): plain and
+    // clamped calls alternating, with clamps wide enough never to engage, is
+    // the plain recurrence.
+    {
+        use rustradio::iir_filter::ClampedFilter;
+        for taps in [vec![0.5f32, 0.5], vec![0.2, 0.3, 0.4], vec![1.0, -0.5, 0.25, -0.125], vec![0.3, 0.1, 0.2, 0.1, 0.05]] {
+            for pattern in [[false, true, false, true], [true, true, false, false], [false, false, false, true]] {
+                let x: Vec<f32> = (0..16).map(|i| ((i * 7 % 5) as f32 - 2.0) * 0.25).collect();
+                let mut f = IirFilter::new(&taps);
+                let mut ys: Vec<f64> = vec![];
+                rep.evaluations += 1;
+                rep.distinct_nontrivial += 1;
+                for (n, xv) in x.iter().enumerate() {
+                    let got = if pattern[n % 4] { f.filter_clamped(*xv, -1e6, 1e6) } else { f.filter(*xv) } as f64;
+                    let mut want = taps[0] as f64 * *xv as f64;
+                    for i in 1..taps.len() {
+                        if n >= i {
+                            want += taps[i] as f64 * ys[n - i];
+                        }
+                    }
+                    ys.push(want);
+                    if (got - want).abs() > 1e-4 * (1.0 + want.abs()) {
+                        viol(
+                            rep,
+                            "IirFilter",
+                            "mixed-recurrence",
+                            format!("taps {taps:?}, calls (true = clamped) {pattern:?} repeating: y[{n}] = {got}, recurrence gives {want}"),
+                            json!({"part": "iir-mixed", "taps": taps}),
+                        );
+                        break;
+                    }
+                }
+            }
+        }
+    }
     // Clamped IIR: y[n] = clamp(t0 x[n] + sum t_i y[n-i]); the *clamped* value
     // is what is fed back.
     {
